@@ -105,7 +105,7 @@ NOTE (audit): conjunct 2 is a structural fact about `applyCallRemovals` for ANY
 removal list and does not use the hypothesis; conjunct 1 restates the filter of
 `unusedCalls`.  The statement that connects "what is removed" with "what was
 unused" and says that the graph of the remaining calls is unchanged is
-`remove_unused_calls_pass_graph_partial` / `remove_unused_calls_loop_graph_partial`
+`remove_unused_calls_pass_graph_partial` / `remove_unused_calls_loop_graph_exact_partial`
 below (side conditions derived from the analyses). -/
 theorem remove_unused_preserves_partial (p : Program) (pipe : Callable) (id : String)
     (hid : id ∈ unusedCalls p pipe) :
@@ -453,21 +453,56 @@ theorem remove_unused_calls_pass_graph_partial (p : Program) (ti : TypeInfo) (hs
           (deepGraphKeepAt (keepOf (unusedCallPlan p).1) big fuel ti p) :=
   Proofs.RefactorGraph.calls_pass_graph p ti hs big fuel
 
-/-- **remove_unused_calls_loop_graph_partial** — the remove-unused fixed point at the level
-of the resolved call graph, in the remove-unused-calls mode of `mro edit` (no
-`-top-calls`): after the loop, every node is a node of the original graph with
-the same fqid, callable, resolved outputs and retained references, and with
-resolved inputs that are a sub-list of the original ones (`GraphLe`) — for every
-number of iterations and every unfolding budget.
-PARTIAL with respect to the full loop: with `-top-calls` the loop also removes
-unused pipeline OUTPUTS; each such removal is covered by `remove_output_graph`
-under its decidable hypothesis `RemOutOK`, which is not derived from the
-`unusedOutputs` reachability analysis. -/
-theorem remove_unused_calls_loop_graph_partial (p0 p : Program) (ti : TypeInfo) (n big fuel : Nat)
+/-- **remove_unused_calls_loop_graph_upper_bound_partial** (was `remove_unused_calls_loop_graph_partial`)
+— an UPPER BOUND only, kept for the record: after the loop (remove-unused-calls mode of
+`mro edit`, no `-top-calls`) every node is a node of the original graph with the same fqid,
+callable, resolved outputs and retained references, and with resolved inputs that are a
+sub-list of the original ones (`GraphLe`).  It does NOT say which nodes remain or which
+inputs were dropped, the type table `ti'` is unconstrained, and the conclusion is also met
+by a loop that deletes the whole program and by the identity (audit pass 2, C19-M1).  The
+exact statement is `remove_unused_calls_loop_graph_exact_partial` below. -/
+theorem remove_unused_calls_loop_graph_upper_bound_partial (p0 p : Program) (ti : TypeInfo) (n big fuel : Nat)
     (hs : StructOK p = true) :
     ∃ ti', Proofs.RefactorGraph.GraphLe (deepGraphAt big fuel ti' (removeLoop p0 true [] n p))
       (deepGraphAt big fuel ti p) :=
   Proofs.RefactorGraph.remove_calls_loop_graph p0 big fuel n p ti hs
+
+open Proofs.RefactorGraph in
+/-- **remove_unused_calls_loop_graph_exact_partial** — the remove-unused-calls loop (no
+`-top-calls`) as ONE equation about the original resolved call graph, on a structurally
+well-formed program, for every fuel `n` of the loop and every unfolding budget:
+the loop is `m ≤ n` calls passes (`callsIter`: each deletes exactly its own
+`unusedCallPlan`); the graph of the result, in the type table `ti.removeInputs pairs`, is
+EXACTLY the original graph restricted to the calls that every pass keeps (`loopKeep`:
+the walk skips the deleted calls, every remaining node has the fqid / callable / resolved
+inputs / outputs / retained references it has in the ORIGINAL program —
+`deepGraphKeepAt`, an ordered sub-list of the original graph by `kept_graph_sublist_partial`)
+minus the input keys removed by the cascades (`loopPairs`); each of the `m` passes had
+something to delete; and unless the fuel ran out (`m = n`; `removeUnused` starts with
+`measure p + 1`, `fixpoint_terminates`) no call of the result is unused.  So what is
+removed is exactly the union of the passes' plans, and what remains is unchanged.
+Neither the identity (on a program with an unused call) nor a loop that deletes more
+satisfies this.  All side conditions are derived from the loop's own analyses.
+PARTIAL with respect to the full loop: with `-top-calls` the loop also removes unused
+pipeline OUTPUTS; each such removal is covered by `remove_output_edit_graph_partial`
+under its decidable hypothesis `RemOutOK`, which is not derived from the
+`unusedOutputs` reachability analysis. -/
+theorem remove_unused_calls_loop_graph_exact_partial (p0 p : Program) (ti : TypeInfo) (n big fuel : Nat)
+    (hs : StructOK p = true) :
+    ∃ m, m ≤ n
+      ∧ removeLoop p0 true [] n p = (callsIter m (ti, p)).2
+      ∧ deepGraphAt big fuel (ti.removeInputs (loopPairs m (ti, p))) (removeLoop p0 true [] n p)
+          = (loopPairs m (ti, p)).foldl (fun g xq => g.map (remNodeIn xq.1 xq.2))
+              (deepGraphKeepAt (fun c i => loopKeep m (ti, p) c.name c.isPipe i) big fuel ti p)
+      ∧ (∀ k, k < m → (unusedCallPlan (callsIter k (ti, p)).2).1 ≠ [])
+      ∧ (m < n → (unusedCallPlan (removeLoop p0 true [] n p)).1 = []) :=
+  remove_calls_loop_graph_eq p0 big fuel n p ti hs
+
+/-- the restricted graph is an ordered sub-list of the full graph of the same program:
+deleting calls deletes whole subtrees of the walk, and permutes / duplicates / alters nothing -/
+theorem kept_graph_sublist_partial (keep : Callable → String → Bool) (big fuel : Nat) (ti : TypeInfo) (p : Program) :
+    (deepGraphKeepAt keep big fuel ti p).Sublist (deepGraphAt big fuel ti p) :=
+  Proofs.RefactorGraph.deepGraphKeepAt_sublist keep big fuel ti p
 
 example : StructOK exProg3 = true ∧ (unusedCallPlan exProg3).1 = [⟨"P", ["V"]⟩]
     ∧ removeUnused true [] exProg3 ≠ exProg3 := by decide
@@ -582,5 +617,47 @@ theorem deepGraphD_embeds_deepGraph (ti : TypeInfo) (p : Program) (h : noDisable
   Proofs.RefactorGraph.deepGraphD_eq_embed ti p h
 
 example : noDisabledMods exDeep = true ∧ (deepGraphD exDeepTi exDeep).length = 5 := by decide
+
+/-! ### the removal theorems at depth (audit pass 2, C19 MEDIUM-3 / M1)
+
+`exDeep2`: sub-pipeline `Q` of `P` has an unused call `B3` which is the only user of `A2`,
+which is the only user of `Q`'s input `u`.  Pass 1 deletes `Q.B3` and `P.B2`, pass 2
+deletes `Q.A2` and cascades: input `u` of `Q` and its binding in `P`'s call of `Q` go;
+pass 3 finds nothing. -/
+def dQ2 : Callable :=
+  ⟨true, "Q", false, ["a", "u"], [("r", false), ("z", false)], [],
+   [⟨"A", "A", "", [⟨"a", .ref ⟨.self, "a", []⟩⟩], []⟩,
+    ⟨"A2", "A", "", [⟨"a", .ref ⟨.self, "u", []⟩⟩], []⟩,
+    ⟨"B3", "B", "", [⟨"v", .ref ⟨.self, "a", []⟩⟩, ⟨"q", .ref ⟨.call, "A2", ["pt"]⟩⟩], []⟩],
+   [⟨"r", .ref ⟨.call, "A", ["pt"]⟩⟩, ⟨"z", .lit "37"⟩], []⟩
+def dP2 : Callable :=
+  { dP with calls := [⟨"Q", "Q", "", [⟨"a", .ref ⟨.self, "a", []⟩⟩, ⟨"u", .ref ⟨.self, "a", []⟩⟩], []⟩] ++ dP.calls.drop 1 }
+def exDeep2 : Program := ⟨[dA, dB, dQ2, dP2], some ⟨"P", "P", "", [⟨"a", .lit "35"⟩], []⟩⟩
+def exDeepTi2 : TypeInfo :=
+  ⟨exDeepTi.structs,
+   [("A", [("a", tInt)]), ("B", [("v", tInt), ("q", tPT)]), ("Q", [("a", tInt), ("u", tInt)]), ("P", [("a", tInt)])],
+   exDeepTi.outs⟩
+
+open Proofs.RefactorGraph in
+example :
+    StructOK exDeep2 = true
+    ∧ unusedCallPlan exDeep2 = ([⟨"Q", ["B3"]⟩, ⟨"P", ["B2"]⟩], [])
+    ∧ unusedCallPlan (callsIter 1 (exDeepTi2, exDeep2)).2 = ([⟨"Q", ["A2"]⟩], [("Q", "u")])
+    ∧ unusedCallPlan (callsIter 2 (exDeepTi2, exDeep2)).2 = ([], [])
+    ∧ removeUnused true [] exDeep2 = (callsIter 2 (exDeepTi2, exDeep2)).2
+    ∧ loopPairs 2 (exDeepTi2, exDeep2) = [("Q", "u")] := by decide
+
+open Proofs.RefactorGraph in
+example :
+    (deepGraph exDeepTi2 exDeep2).map (·.fqid)
+      = [["P"], ["P", "Q"], ["P", "Q", "A"], ["P", "Q", "A2"], ["P", "Q", "B3"], ["P", "B"], ["P", "B2"]]
+    ∧ (deepGraphKeepAt (fun c i => loopKeep 2 (exDeepTi2, exDeep2) c.name c.isPipe i)
+          (graphFuel exDeep2) (graphFuel exDeep2) exDeepTi2 exDeep2).map (·.fqid)
+      = [["P"], ["P", "Q"], ["P", "Q", "A"], ["P", "B"]]
+    ∧ ((deepGraph exDeepTi2 exDeep2).find? (·.fqid == ["P", "Q"])).map (·.inputs)
+      = some [("a", .lit "35"), ("u", .lit "35")]
+    ∧ ((deepGraphAt (graphFuel exDeep2) (graphFuel exDeep2) (exDeepTi2.removeInputs [("Q", "u")])
+          (removeUnused true [] exDeep2)).find? (·.fqid == ["P", "Q"])).map (·.inputs)
+      = some [("a", .lit "35")] := by decide
 
 end Props.C19
